@@ -34,6 +34,7 @@ let dispatch kind : (z list list -> z list list) =
   | "fs" -> run_fs
   | "dest" -> run_dest
   | "source" -> run_source
+  | "system" -> run_system
   | _ -> failwith ("unknown kind " ^ kind)
 
 let () =
